@@ -18,7 +18,27 @@ pub fn alpha(rep: &Rep) -> Alpha {
     }
 }
 
+fn run_mt(rep: &mut Rep, idx: &mut u64) {
+    // real threads: every result is checked against the acknowledgement generated for that very request
+    let mt: Vec<(usize, usize)> = if rep.quick() { vec![(4, 6000), (8, 4000), (2, 6000), (6, 4000)] } else { vec![(4, 40_000), (8, 40_000), (8, 30_000), (6, 50_000), (2, 60_000), (3, 50_000), (5, 40_000), (7, 30_000)] };
+    rep.note("multi-thread: 2-8 OS threads with handle clones issuing batches of 1-12 concurrent operations; the broker thread answers with random delay and reordering, every acknowledgement carries the request's own topic as reason string and a reason code derived from it; each client verifies it got exactly that");
+    for (k, (threads, ops)) in mt.iter().enumerate() {
+        let id = format!("mt:{k}:{threads}:{ops}");
+        *idx += 1;
+        if rep.take(*idx, &id) {
+            super::mt::mt_stress(rep, &id, *threads, *ops, rep.seed.wrapping_mul(131).wrapping_add(k as u64), true, "C05");
+        }
+    }
+}
+
 pub fn run(rep: &mut Rep) {
+    if rep.profile == "tsan" {
+        // the race detector has something to see only where several threads run: the single-task explorations are skipped
+        rep.note("tsan: only the real-thread stress runs under ThreadSanitizer (the single-task explorations have no concurrency for it to observe)");
+        let mut idx = 20_000_000u64;
+        run_mt(rep, &mut idx);
+        return;
+    }
     let a = alpha(rep);
     let depth = if rep.quick() { 6 } else { 8 };
     rep.note(&format!(
@@ -137,16 +157,8 @@ pub fn run(rep: &mut Rep) {
             super::add_counters(rep, &w);
         }
     }
-    // real threads: every result is checked against the acknowledgement generated for that very request
-    let mt: Vec<(usize, usize)> = if rep.quick() { vec![(4, 6000), (8, 4000), (2, 6000), (6, 4000)] } else { vec![(4, 40_000), (8, 40_000), (8, 30_000), (6, 50_000), (2, 60_000), (3, 50_000), (5, 40_000), (7, 30_000)] };
-    rep.note("multi-thread: 2-8 OS threads with handle clones issuing batches of 1-12 concurrent operations; the broker thread answers with random delay and reordering, every acknowledgement carries the request's own topic as reason string and a reason code derived from it; each client verifies it got exactly that");
-    for (k, (threads, ops)) in mt.iter().enumerate() {
-        let id = format!("mt:{k}:{threads}:{ops}");
-        idx += 1;
-        if rep.take(idx, &id) {
-            super::mt::mt_stress(rep, &id, *threads, *ops, rep.seed.wrapping_mul(131).wrapping_add(k as u64), true, "C05");
-        }
-    }
+    idx = idx.max(20_000_000);
+    run_mt(rep, &mut idx);
     let walks = if rep.quick() { 200 } else { 3000 };
     let mut wa = a.clone();
     wa.max_ops = 400;
@@ -154,4 +166,11 @@ pub fn run(rep: &mut Rep) {
     wa.pub_ack_variants = vec![(0, 0), (1, 1), (2, 1), (5, 0), (8, 1)];
     let steps = if rep.quick() { 300 } else { 1000 };
     walk_world(rep, "walk", walks, steps, &|s| World::boot(WorldCfg { seed: s, seed_ids: Some(((s % 65000) as u16 + 1, (s % 70000) as u32 + 1)), order: (s % 4) as u8, ..Default::default() }), &wa);
+    // the same Context across several connections: the walk goes on after run() ended and the context was connected again
+    let mut wr = wa.clone();
+    wr.terms = vec![TermAct::Eof, TermAct::ReadErr, TermAct::ServerDisconnect { reason: 0x8b, form: 2, props: false }, TermAct::UserDisconnect];
+    wr.reconnect = true;
+    wr.drops = true;
+    rep.note("walks across connections: the same alphabet plus {EOF, read error, server DISCONNECT, user DISCONNECT} and, once run() has returned, 'connect the same Context again' (session resumed / resumed under Receive Maximum 2 / expired / no disconnection recorded); unfinished QoS 1/2 publishes complete on the acknowledgements of the new connection, everything else keeps its own result");
+    walk_world(rep, "walkrc", walks, steps, &|s| World::boot(WorldCfg { seed: s, sei: if s % 3 == 0 { None } else { Some(3600) }, order: (s % 4) as u8, ..Default::default() }), &wr);
 }
